@@ -605,52 +605,48 @@ Record symtab := mk_symtab {
 
 Definition type_ctx (tb : symtab) (name : str) : option labels := assoc_get name (st_types tb).
 
-Inductive fres := FFound (e : entity) | FNone | FCrash.
-
 (* _find_chain_item *)
-Fixpoint find_chain (tb : symtab) (ctx : labels) (ch : chain) : fres :=
+Fixpoint find_chain (tb : symtab) (ctx : labels) (ch : chain) : option entity :=
   match ch with
-  | [] => FNone
-  | [x] => match labels_get x ctx None with Some e => FFound e | None => FNone end
+  | [] => None
+  | [x] => labels_get x ctx None
   | x :: rest =>
     match labels_get x ctx None with
-    | None => FNone
-    | Some (EFunc _ _ false) => FCrash
-    | Some (EFunc _ t true) => match type_ctx tb t with Some c => find_chain tb c rest | None => FNone end
-    | Some (EType t) => match type_ctx tb t with Some c => find_chain tb c rest | None => FNone end
-    | Some (EVar t true) => match type_ctx tb t with Some c => find_chain tb c rest | None => FNone end
-    | Some (EVar _ false) => FNone
-    | Some (EProc _) => FNone
+    | None => None
+    | Some (EFunc _ t) => match type_ctx tb t with Some c => find_chain tb c rest | None => None end
+    | Some (EType t) => match type_ctx tb t with Some c => find_chain tb c rest | None => None end
+    | Some (EVar t true) => match type_ctx tb t with Some c => find_chain tb c rest | None => None end
+    | Some (EVar _ false) => None
+    | Some (EProc _) => None
     end
   end.
 
-(* what correlate leaves in unit.calls for one chain: the resolved procedure (its identity), or the
-   last label of a chain that did not resolve; variables and types are dropped.
-   None = the implementation raises *)
-Definition resolve_one (tb : symtab) (ch : chain) : option (option str) :=
+(* what correlate makes of one chain: the resolved procedure (its identity), or the last label of a
+   chain that did not resolve; None: a variable or a type, dropped *)
+Definition resolve_one (tb : symtab) (ch : chain) : option str :=
   match find_chain tb (st_scope tb) ch with
-  | FCrash => None
-  | FNone => Some (Some (last_of ch))
-  | FFound (EVar _ _) => Some None
-  | FFound (EType _) => Some None
-  | FFound (EFunc id _ _) => Some (Some id)
-  | FFound (EProc id) => Some (Some id)
+  | None => Some (last_of ch)
+  | Some (EVar _ _) => None
+  | Some (EType _) => None
+  | Some (EFunc id _) => Some id
+  | Some (EProc id) => Some id
   end.
 
-Fixpoint resolve_calls (tb : symtab) (calls : list chain) : option (list str) :=
+(* the loop of correlate: each procedure once, however many chains lead to it *)
+Fixpoint resolve_loop (tb : symtab) (calls : list chain) (acc : list str) : list str :=
   match calls with
-  | [] => Some []
+  | [] => acc
   | ch :: rest =>
-    match resolve_one tb ch, resolve_calls tb rest with
-    | Some (Some n), Some l => Some (n :: l)
-    | Some None, Some l => Some l
-    | _, _ => None
+    match resolve_one tb ch with
+    | Some n => if str_in n acc then resolve_loop tb rest acc else resolve_loop tb rest (acc ++ [n])
+    | None => resolve_loop tb rest acc
     end
   end.
+Definition resolve_calls (tb : symtab) (calls : list chain) : list str := resolve_loop tb calls [].
 
-(* names in unit.calls after correlate *)
+(* unit.calls after correlate: identities of resolved procedures, names of the others *)
 Definition recorded (tb : symtab) (stmts : list str) : option (list str) :=
   match unit_raw_calls stmts with
-  | Some c => resolve_calls tb c
+  | Some c => Some (resolve_calls tb c)
   | None => None
   end.
